@@ -271,11 +271,12 @@ Definition mv_sources (c : cfg) (o : opd) (f : fsop) : bool :=
   end.
 
 (** commit of a NEW object, fs.rs:361-403: only if the guard accepts and the target does not
-    exist: create_dir_all(parent) and one rename of the whole staged object *)
+    exist: create_dir_all(parent) - the parent may be the storage root itself, whose mkdir is a
+    failing EEXIST probe - and one rename of the whole staged object *)
 Definition commit_new (c : cfg) (s : pre) (o : opd) (f : fsop) : bool :=
   negb (o_exists o) && new_root_ok s (c_root c) (o_rel o) &&
   match f with
-  | Mkdir p => below (c_root c) p && below p (N_o c o)
+  | Mkdir p => under (c_root c) p && below p (N_o c o)
   | Rename a d => fpath_eqb a (S_o c o) && fpath_eqb d (N_o c o)
   | _ => false
   end.
